@@ -31,7 +31,7 @@ enum { C_SNEW = 1, C_SACQ, C_SREL, C_SOWN, C_SFREE, C_MNEW, C_MWRITE, C_MREAD, C
 typedef struct { int op, slot, name, val, mode, off; } Cmd;
 typedef struct { int kind; long res, aux; } Rep;     /* kind 'B' blocked, 'D' done */
 
-static char uname[2][96];
+static char uname[2][1200];      /* the two user names; "<kind>@<len>" pads them to <len> characters, equal except for the last one */
 static int wsock = -1;            /* worker side socket */
 
 /* ------------------------------------------------------------------ worker-side syscall wrappers */
@@ -108,7 +108,7 @@ static void worker_main(int sock)
 
 /* ------------------------------------------------------------------ driver side */
 static pid_t wpid[2]; static int wfd[2]; static int wbusy[2];
-static char cur_hist[512]; static const char *KIND = "sem"; static int DEPTH; static int replay_mode;
+static char cur_hist[512]; static const char *KIND = "sem"; static char KSUF[16]; static int DEPTH; static int replay_mode;
 static int SHARD, NSHARDS = 1; static long hist_index;     /* BFS bookkeeping is identical in every shard; shard k executes the histories with index % NSHARDS == k */
 static struct { char sig[128]; long n; } sigs[64]; static int nsigs;
 static int fail_flag;
@@ -122,7 +122,7 @@ static void viol(const char *prop, const char *sig, const char *fmt, ...)
     if (replay_mode) printf("  !! %s: %s\n", sig, buf);
     for (i = 0; i < nsigs; i++) if (!strcmp(sigs[i].sig, sig)) { sigs[i].n++; return; }
     if (nsigs < 64) { strcpy(sigs[nsigs].sig, sig); sigs[nsigs].n = 1; nsigs++; }
-    snprintf(rp, sizeof rp, "ipc_hist replay %s %s", KIND, cur_hist);
+    snprintf(rp, sizeof rp, "ipc_hist replay %s%s %s", KIND, KSUF, cur_hist);
     hout_viol(prop, sig, rp, "history [%s]: %s", cur_hist, buf);
 }
 
@@ -146,7 +146,7 @@ static void unlink_names(void)
 {
     int i;
     for (i = 0; i < 2; i++) {
-        char nm[160], path[128]; pchar *k, *k2; char nm2[160];
+        char nm[1300], path[128]; pchar *k, *k2; char nm2[160];
         snprintf(nm, sizeof nm, "%s_p_sem_object", uname[i]); k = p_ipc_get_platform_key(nm, TRUE);
         snprintf(path, sizeof path, "/dev/shm/sem.%s", k + 1); unlink(path); p_free(k);
         snprintf(nm, sizeof nm, "%s_p_shm_object", uname[i]); k = p_ipc_get_platform_key(nm, TRUE);
@@ -158,7 +158,7 @@ static void unlink_names(void)
 static long last_stat_size;
 static int name_linked(int n, int shm)       /* shm: 0 semaphore of that user name, 1 segment, 2 the segment's lock semaphore */
 {
-    char nm[160], path[128]; pchar *k; struct stat st; int r;
+    char nm[1300], path[128]; pchar *k; struct stat st; int r;
     snprintf(nm, sizeof nm, "%s%s", uname[n], shm ? "_p_shm_object" : "_p_sem_object"); k = p_ipc_get_platform_key(nm, TRUE);
     if (shm == 2) { pchar *k2; snprintf(nm, sizeof nm, "%s_p_sem_object", k); k2 = p_ipc_get_platform_key(nm, TRUE); p_free(k); k = k2; }
     snprintf(path, sizeof path, shm == 1 ? "/dev/shm/%s" : "/dev/shm/sem.%s", k + 1); p_free(k);
@@ -412,7 +412,7 @@ static int sem_bfs(void)
                 sref_init(&r); for (k = 0; k < n; k++) { sref_apply(&r, h[k], &eb, &wp); if (wp) r.pending = -1; }
                 if (!sop_valid(&r, o)) continue;
                 h[n] = o; shist_text(h, n + 1, cur_hist, sizeof cur_hist);
-                hout_progress("sig=sem/crash ipc_hist replay sem %s", cur_hist);
+                hout_progress("sig=sem/crash ipc_hist replay sem%s %s", KSUF, cur_hist);
                 fail_flag = 0;
                 if (hist_index++ % NSHARDS == SHARD) srun(h, n + 1, 1);
                 sref_apply(&r, o, &eb, &wp); if (wp) r.pending = -1;
@@ -453,7 +453,7 @@ static int shm_bfs(void)
             mref_replay(&r, h, n);
             if (!mop_valid(&r, o)) continue;
             h[n] = o; mhist_text(h, n + 1, cur_hist, sizeof cur_hist);
-            hout_progress("sig=shm/crash ipc_hist replay shm %s", cur_hist);
+            hout_progress("sig=shm/crash ipc_hist replay shm%s %s", KSUF, cur_hist);
             fail_flag = 0;
             if (hist_index++ % NSHARDS == SHARD) mrun(h, n + 1, 1);
             mref_replay(&r, h, n + 1);
@@ -559,12 +559,22 @@ int main(int argc, char **argv)
     if (argc < 2) return 2;
     hout_open(); p_libsys_init();
     signal(SIGPIPE, SIG_IGN);
-    snprintf(uname[0], sizeof uname[0], "vfh_%d_a_long_common_prefix_of_more_than_fifty_characters_xxxxxxxxxx_A", (int)getpid()); snprintf(uname[1], sizeof uname[1], "vfh_%d_a_long_common_prefix_of_more_than_fifty_characters_xxxxxxxxxx_B", (int)getpid());
     hs_cap = 1 << 18; hs = calloc(hs_cap, sizeof *hs); hcap = 2 * hs_cap + 1; htab = malloc(sizeof(int) * hcap); for (i = 0; i < hcap; i++) htab[i] = -1;
     KIND = argv[1]; DEPTH = argc > 2 ? atoi(argv[2]) : 4;
     if (argc > 4 && strcmp(argv[1], "replay")) { SHARD = atoi(argv[3]); NSHARDS = atoi(argv[4]); }
-    if (!strcmp(KIND, "replay")) {
-        replay_mode = 1; KIND = argv[2]; strncpy(cur_hist, argv[3], sizeof cur_hist - 1);
+    if (!strcmp(KIND, "replay")) { replay_mode = 1; KIND = argv[2]; strncpy(cur_hist, argv[3], sizeof cur_hist - 1); }
+    {   /* names: a long common prefix, different in the last character only; "<kind>@<len>" asks for names of <len> characters */
+        static char kb[32]; char *at; int len = 0, n, k;
+        snprintf(kb, sizeof kb, "%s", KIND); at = strchr(kb, '@');
+        if (at) { snprintf(KSUF, sizeof KSUF, "%s", at); len = atoi(at + 1); *at = 0; KIND = kb; }
+        if (len > 1100) len = 1100;
+        for (k = 0; k < 2; k++) {
+            n = snprintf(uname[k], sizeof uname[k], "vfh_%d_a_long_common_prefix_of_more_than_fifty_characters_xxxxxxxxxx_", (int)getpid());
+            while (n < len - 1) { uname[k][n] = (char)('a' + n % 26); n++; }
+            uname[k][n++] = k ? 'B' : 'A'; uname[k][n] = 0;
+        }
+    }
+    if (replay_mode) {
         if (!strcmp(KIND, "sem")) { SOp h[32]; int n = 0; const char *p = argv[3]; while (*p) { h[n].op = (unsigned char)(strchr(SOPC, *p) - SOPC); p++; h[n].slot = (unsigned char)strtol(p, (char **)&p, 10); h[n].name = h[n].val = h[n].mode = 0; if (*p == '.') { p++; h[n].name = (unsigned char)strtol(p, (char **)&p, 10); p++; h[n].val = (unsigned char)strtol(p, (char **)&p, 10); p++; h[n].mode = (unsigned char)strtol(p, (char **)&p, 10); } n++; if (*p == ',') p++; } srun(h, n, 1); }
         else { MOp h[32]; int n = 0; const char *p = argv[3]; while (*p) { h[n].op = (unsigned char)(strchr(MOPC, *p) - MOPC); p++; h[n].slot = (unsigned char)strtol(p, (char **)&p, 10); h[n].name = h[n].val = 0; if (*p == '.') { p++; h[n].name = (unsigned char)strtol(p, (char **)&p, 10); p++; h[n].val = (unsigned char)strtol(p, (char **)&p, 10); } n++; if (*p == ',') p++; } mrun(h, n, 1); }
         printf("replay finished: %ld violation report(s)\n", hout_nviol);
